@@ -20,7 +20,7 @@ pub fn spec() -> Spec {
         rule: "family 'exhaustive': every k x n exponent matrix with entries in [-e, e] for the listed (n, k, e), turned into relators g1^a1 g2^a2 ..., plus 9 metamorphic variants of each (relators reversed / inverted / rotated / conjugated, generators swapped / inverted, product of two relators appended, letters interleaved differently, duplicate relator); family 'walk' (explicit-state BFS): from diagonal seeds, every matrix reachable by <= d elementary unimodular row/column operations (add c*other for c in +-1,+-2; swap; negate), deduplicated, the answer must stay the seed's; family 'dsym': crate presentations of fundamental groups of all DSyms outputs over DSets(2, <= N). Oracle: invariant factors from determinantal divisors (gcd of all k x k minors), for shapes > 4 by i128 elimination with overflow detection; result ascending, no 1s, one 0 per free generator. Non-trivial = rank >= 1 and some invariant factor other than 1, or a free part together with torsion.",
         assumptions: &[],
         bounds: |t| json!({"exhaustive_nke": if t.is_thorough() { json!([[2,2,9],[3,2,3],[2,3,3],[3,3,2],[4,2,1],[2,4,1],[4,3,1],[3,4,1],[1,3,4],[3,1,4]]) } else { json!([[2,2,6],[3,2,2],[2,3,2],[3,3,2],[4,2,1],[2,4,1],[1,3,4],[3,1,4]]) },
-            "walk_depth_small_shapes": t.pick(4, 5), "walk_depth_3x3": 3, "walk_depth_large_shapes": t.pick(2, 2), "walk_coefficients": [1, -1, 2, -2], "dsym_dsets_max_size": t.pick(6, 8)}),
+            "walk_depth_small_shapes": t.pick(4, 5), "walk_depth_3x3": 3, "walk_depth_large_shapes": t.pick(2, 2), "walk_coefficients": [1, -1, 2, -2], "moderate_entries_family": "2 x 2 over 8 [14] values up to 1001 in size, and 2 x 3 / 3 x 3 / 2 x 4 patterns over 6 values up to 210", "dsym_dsets_max_size": t.pick(6, 8)}),
     }
 }
 
@@ -342,6 +342,35 @@ fn run(ctx: &mut Ctx) {
                 check_matrix(ctx, n, m, with_variants);
             }
         });
+    }
+    // moderate entries (relators up to a few thousand letters): products of small primes, near-multiples and
+    // sign mixes, where gcd steps take several rounds and intermediate values grow
+    {
+        let vals: Vec<i64> = if tier.is_thorough() { vec![0, 1, -1, 2, -3, 6, 10, -15, 35, 77, -210, 1001, 1000, -999] } else { vec![0, 1, -2, 6, -15, 77, -210, 1001] };
+        for a in &vals {
+            for b in &vals {
+                for c in &vals {
+                    for d in &vals {
+                        if ctx.take() {
+                            check_matrix(ctx, 2, &vec![vec![*a, *b], vec![*c, *d]], false);
+                        }
+                    }
+                }
+            }
+        }
+        // three generators, two and three relators built from the same values (a spread, not the full cube)
+        let v3: Vec<i64> = vec![0, 2, -3, 6, 35, -210];
+        for a in &v3 {
+            for b in &v3 {
+                for c in &v3 {
+                    if ctx.take() {
+                        check_matrix(ctx, 3, &vec![vec![*a, *b, *c], vec![*c, *a, -*b]], false);
+                        check_matrix(ctx, 3, &vec![vec![*a, *b, *c], vec![*b, *c, *a], vec![*c, -*a, *b]], false);
+                        check_matrix(ctx, 4, &vec![vec![*a, *b, *c, 1], vec![*b, *c, 2, *a]], false);
+                    }
+                }
+            }
+        }
     }
     // zero relators and zero generators
     if ctx.take() {
